@@ -207,8 +207,12 @@ func (m *UnboundedSegmentedMailbox) Dequeue() *ReceiveContext {
 		// resetting it in newSegment, which loses that message and leaves a nil
 		// slot the consumer can never get past. Left to the garbage collector,
 		// a retired segment stays full, so a stale producer just retries.
+		//
+		// Its next pointer is left intact for the same reason: m.tail may still
+		// point at this segment (the appender links next first and swings tail
+		// second). A producer that finds next == nil here would append a second
+		// successor and swing m.tail onto a chain the consumer never reaches.
 		m.head.Store(next)
-		seg.next.Store(nil)
 		seg = next
 	}
 }
